@@ -15,10 +15,12 @@ import (
 	"fmt"
 	"net"
 	"net/http"
+	"runtime"
 	"os"
 	"strconv"
 	"strings"
 	"sync"
+	"sync/atomic"
 	"syscall"
 
 	"github.com/tigerwill90/fox"
@@ -414,8 +416,13 @@ func runMwRace(spec string) string {
 			gopts = append(gopts, fox.WithMiddleware(mwMiddleware(i)))
 			gids = append(gids, i)
 		}
+		// two middleware for the trailing-slash redirect handler only, and a redirecting route
+		gopts = append(gopts, fox.WithMiddlewareFor(fox.RedirectHandler, mwMiddleware(500), mwMiddleware(501)))
 		r, err := fox.New(gopts...)
 		if err != nil {
+			return "I=invalidConfig"
+		}
+		if _, err := r.Handle("GET", "/rd/", mwRouteHandler, fox.WithRedirectTrailingSlash(true)); err != nil {
 			return "I=invalidConfig"
 		}
 		var wg sync.WaitGroup
@@ -439,8 +446,36 @@ func runMwRace(spec string) string {
 				}
 			}(k)
 		}
+		// the FIRST redirects of this router are issued at the same time as well (whatever the router prepares lazily for
+		// them is prepared once): each runs every redirect-scoped middleware exactly once, and so does a later one
+		rdTraces := make([]string, nroutes+1)
+		for k := 0; k < nroutes; k++ {
+			wg.Add(1)
+			go func(k int) {
+				defer wg.Done()
+				<-start
+				rdTraces[k] = mwServe(r, "GET", "/rd", false)
+			}(k)
+		}
 		close(start)
 		wg.Wait()
+		rdTraces[nroutes] = mwServe(r, "GET", "/rd", false)
+		{
+			var want []string
+			for _, i := range gids {
+				want = append(want, "e"+itoa(i))
+			}
+			want = append(want, "e500", "e501", "h301", "x501", "x500")
+			for i := len(gids) - 1; i >= 0; i-- {
+				want = append(want, "x"+itoa(gids[i]))
+			}
+			for k, got := range rdTraces {
+				if got != strings.Join(want, ".") {
+					bad = append(bad, fmt.Sprintf("redirect #%d trace %s want %s", k, got, strings.Join(want, ".")))
+					break
+				}
+			}
+		}
 		for k := 0; k < nroutes; k++ {
 			if errs[k] != nil {
 				bad = append(bad, "route "+itoa(k)+": "+errs[k].Error())
@@ -457,6 +492,43 @@ func runMwRace(spec string) string {
 			got := mwServe(r, "GET", "/r"+itoa(k), false)
 			if got != strings.Join(want, ".") {
 				bad = append(bad, "route /r"+itoa(k)+" trace "+got+" want "+strings.Join(want, "."))
+			}
+		}
+	}
+	// many small routers whose very first redirects are released together by a spinning barrier (a tighter start than a
+	// closed channel): whatever a router builds lazily for its redirect handler is built once
+	for mini := 0; mini < 120*rounds && len(bad) == 0; mini++ {
+		r, err := fox.New(fox.WithMiddlewareFor(fox.RedirectHandler, mwMiddleware(500), mwMiddleware(501)))
+		if err != nil {
+			return "I=invalidConfig"
+		}
+		if _, err := r.Handle("GET", "/rd/", mwRouteHandler, fox.WithRedirectTrailingSlash(true)); err != nil {
+			return "I=invalidConfig"
+		}
+		const workers = 4
+		var ready, goFlag atomic.Int32
+		var wg sync.WaitGroup
+		traces := make([]string, workers+1)
+		for k := 0; k < workers; k++ {
+			wg.Add(1)
+			go func(k int) {
+				defer wg.Done()
+				ready.Add(1)
+				for goFlag.Load() == 0 {
+				}
+				traces[k] = mwServe(r, "GET", "/rd", false)
+			}(k)
+		}
+		for ready.Load() < workers {
+			runtime.Gosched()
+		}
+		goFlag.Store(1)
+		wg.Wait()
+		traces[workers] = mwServe(r, "GET", "/rd", false)
+		for k, got := range traces {
+			if got != "e500.e501.h301.x501.x500" {
+				bad = append(bad, fmt.Sprintf("router #%d, redirect #%d: trace %s want e500.e501.h301.x501.x500", mini, k, got))
+				break
 			}
 		}
 	}
